@@ -22,7 +22,7 @@ theorem sshScan_eq (P : Pats) (q : List Bytes) (b : Bytes) :
   induction q generalizing b with
   | nil => simp [sshScan, readUntil]
   | cons c q ih =>
-    simp only [sshScan, readUntil, sshStop, sshActOf, clsSSH]
+    simp only [sshScan, readUntil, sshActOf, clsSSH]
     by_cases h1 : P.sshErr (b ++ c) = true
     · simp [h1]
     · by_cases h2 : P.promptP (b ++ c) = true
@@ -489,5 +489,433 @@ theorem loop_not_stuck {σ : Type} (scan : List Bytes → Act) (cfg : Cfg)
           exact ih _ _ _ _ (by simpa [Cnt.bump] using hu) (by simpa [Cnt.bump] using hp)
             (by simp [Cnt.bump]; omega) (by simp [Cnt.bump]; omega)
         | ret => simp [Cnt.get, maxOf] at hx
+
+/-! ## scripted dialogues -/
+
+def actOfKind : Kind → Bytes → List Bytes → Act
+  | .err, b, q => .connErr b q
+  | .prompt, b, q => .success b q
+  | .user, b, q => .ask .user b q
+  | .pass, b, q => .ask .pass b q
+  | .phrase, b, q => .ask .phrase b q
+  | .quiet, _, _ => .dry
+
+/-- the scan is "read until the stop test fires, then act on the classification" (whenever the
+    classification is not `quiet`) -/
+structure ScanReads (stop : Bytes → Bool) (cls : Bytes → Kind) (scan : List Bytes → Act) : Prop where
+  dry : ∀ q, readUntil stop q [] = none → scan q = .dry
+  act : ∀ q b q', readUntil stop q [] = some (b, q') → cls b ≠ .quiet →
+    scan q = actOfKind (cls b) b q'
+
+theorem sshAct_reads (P : Pats) : ScanReads (sshStop P) (clsSSH P) (sshAct P) where
+  dry := by
+    intro q h
+    simp [sshAct, sshScan_eq, h]
+  act := by
+    intro q b q' h hq
+    simp only [sshAct, sshScan_eq, h, sshActOf]
+    cases hk : clsSSH P b <;> simp_all [actOfKind, clsSSH_ne_user]
+
+theorem clsTel_range (P : Pats) (b : Bytes) :
+    clsTel P b = .prompt ∨ clsTel P b = .user ∨ clsTel P b = .pass ∨ clsTel P b = .quiet := by
+  unfold clsTel
+  by_cases h1 : P.promptP b = true
+  · simp [h1]
+  · by_cases h2 : P.userP b = true
+    · simp [h1, h2]
+    · by_cases h3 : P.passP b = true <;> simp [h1, h2, h3]
+
+theorem telAct_reads (P : Pats) (depth : Nat) :
+    ScanReads (telStop P depth) (clsTel P) (telAct P depth) where
+  dry := by
+    intro q h
+    unfold telAct
+    rw [telScan_eq]
+    simp [h]
+  act := by
+    intro q b q' h hq
+    unfold telAct
+    rw [telScan_eq]
+    simp only [h, telActOf, List.nil_append]
+    rcases clsTel_range P b with hk | hk | hk | hk
+    · simp [hk, actOfKind]
+    · simp [hk, actOfKind]
+    · simp [hk, actOfKind]
+    · exact absurd hk hq
+
+theorem credLines_block (cfg : Cfg) (w : What) (hw : w ≠ .ret) (b x : Bytes) :
+    credLines (.deliver b :: credWrites cfg w x) = [(w, x)] := by
+  cases w <;> simp_all [credLines, credWrites]
+
+theorem loop_script (stop : Bytes → Bool) (cls : Bytes → Kind) (scan : List Bytes → Act)
+    (hr : ScanReads stop cls scan) (cfg : Cfg) (n : Nat) (rest : List Stage) (c : Cnt)
+    (q : List Bytes) (k : Kind) (tr : List Ev)
+    (hwf : wf stop cls rest q k = true)
+    (hu : c.u ≤ cfg.uMax) (hp : c.p ≤ cfg.pMax) (hpp : c.pp ≤ cfg.ppMax)
+    (hn : (cfg.uMax - c.u) + (cfg.pMax - c.p) + (cfg.ppMax - c.pp) + 1 ≤ n) :
+    let r := loop scan cfg scriptReact n (rest.map (·.chunks)) c q tr
+    r.outcome = spec cfg c.u c.p c.pp k (rest.map (·.kind)) ∧
+    credLines r.trace = credLines tr ++ specLines cfg c.u c.p c.pp k (rest.map (·.kind)) := by
+  induction n generalizing rest c q k tr with
+  | zero => omega
+  | succ n ih =>
+    rw [wf] at hwf
+    cases hru : readUntil stop q [] with
+    | none =>
+      simp only [hru, beq_iff_eq] at hwf
+      subst hwf
+      simp [loop, hr.dry q hru, spec, specLines]
+    | some bq =>
+      obtain ⟨b, q'⟩ := bq
+      simp only [hru, Bool.and_eq_true, beq_iff_eq, bne_iff_ne, ne_eq] at hwf
+      obtain ⟨⟨hk, hnq⟩, hrest⟩ := hwf
+      subst hk
+      have hscan := hr.act q b q' hru hnq
+      cases hk : cls b with
+      | quiet => exact absurd hk hnq
+      | err =>
+        simp [loop, hscan, hk, actOfKind, spec, specLines, credLines_append, credLines]
+      | prompt =>
+        simp [loop, hscan, hk, actOfKind, spec, specLines, credLines_append, credLines]
+      | user =>
+        simp only [hk, Kind.isAsk, if_true] at hrest
+        simp only [loop, hscan, hk, actOfKind, Cnt.get, maxOf]
+        cases rest with
+        | nil => simp at hrest
+        | cons s rest' =>
+          simp only at hrest
+          simp only [List.map_cons, spec, specLines]
+          by_cases hx : c.u + 1 > cfg.uMax
+          · simp [hx, credLines_append, credLines]
+          · simp only [hx, if_false]
+            have := ih rest' (c.bump .user) (q' ++ s.chunks) s.kind
+              (tr ++ .deliver b :: credWrites cfg .user (credOf cfg .user)) hrest
+              (by simp [Cnt.bump]; omega) (by simpa [Cnt.bump] using hp)
+              (by simpa [Cnt.bump] using hpp) (by simp [Cnt.bump]; omega)
+            simp only [scriptReact, Cnt.bump, credOf] at this ⊢
+            refine ⟨this.1, ?_⟩
+            rw [this.2, credLines_append, credLines_block cfg .user (by simp)]
+            simp
+      | pass =>
+        simp only [hk, Kind.isAsk, if_true] at hrest
+        simp only [loop, hscan, hk, actOfKind, Cnt.get, maxOf]
+        cases rest with
+        | nil => simp at hrest
+        | cons s rest' =>
+          simp only at hrest
+          simp only [List.map_cons, spec, specLines]
+          by_cases hx : c.p + 1 > cfg.pMax
+          · simp [hx, credLines_append, credLines]
+          · simp only [hx, if_false]
+            have := ih rest' (c.bump .pass) (q' ++ s.chunks) s.kind
+              (tr ++ .deliver b :: credWrites cfg .pass (credOf cfg .pass)) hrest
+              (by simpa [Cnt.bump] using hu) (by simp [Cnt.bump]; omega)
+              (by simpa [Cnt.bump] using hpp) (by simp [Cnt.bump]; omega)
+            simp only [scriptReact, Cnt.bump, credOf] at this ⊢
+            refine ⟨this.1, ?_⟩
+            rw [this.2, credLines_append, credLines_block cfg .pass (by simp)]
+            simp
+      | phrase =>
+        simp only [hk, Kind.isAsk, if_true] at hrest
+        simp only [loop, hscan, hk, actOfKind, Cnt.get, maxOf]
+        cases rest with
+        | nil => simp at hrest
+        | cons s rest' =>
+          simp only at hrest
+          simp only [List.map_cons, spec, specLines]
+          by_cases hx : c.pp + 1 > cfg.ppMax
+          · simp [hx, credLines_append, credLines]
+          · simp only [hx, if_false]
+            have := ih rest' (c.bump .phrase) (q' ++ s.chunks) s.kind
+              (tr ++ .deliver b :: credWrites cfg .phrase (credOf cfg .phrase)) hrest
+              (by simpa [Cnt.bump] using hu) (by simpa [Cnt.bump] using hp)
+              (by simp [Cnt.bump]; omega) (by simp [Cnt.bump]; omega)
+            simp only [scriptReact, Cnt.bump, credOf] at this ⊢
+            refine ⟨this.1, ?_⟩
+            rw [this.2, credLines_append, credLines_block cfg .phrase (by simp)]
+            simp
+
+/-! ## segmentation insensitivity of one read (text-level statement) -/
+
+/-- Let `S = acc ++ cs.flatten` be the text the loop will have read, `k0` a position in it.
+If the test holds of every prefix of `S` of length ≥ `k0` (the prompt is complete at `k0` and what
+follows does not spoil it) and of no read boundary before `k0`, the read stops at the first read
+boundary at or after `k0`, whatever the segmentation `cs` and whatever follows in the queue. -/
+theorem readUntil_stops (P : Bytes → Bool) (cs rest : List Bytes) (acc : Bytes) (k0 : Nat)
+    (hk : acc.length < k0) (hk' : k0 ≤ (acc ++ cs.flatten).length)
+    (hearly : ∀ i, 1 ≤ i → i ≤ cs.length → (acc ++ (cs.take i).flatten).length < k0 →
+      P (acc ++ (cs.take i).flatten) = false)
+    (hlate : ∀ k, k0 ≤ k → k ≤ (acc ++ cs.flatten).length →
+      P ((acc ++ cs.flatten).take k) = true) :
+    ∃ i, 1 ≤ i ∧ i ≤ cs.length ∧ k0 ≤ (acc ++ (cs.take i).flatten).length ∧
+      readUntil P (cs ++ rest) acc = some (acc ++ (cs.take i).flatten, cs.drop i ++ rest) := by
+  induction cs generalizing acc with
+  | nil => simp at hk'; omega
+  | cons c cs ih =>
+    simp only [List.cons_append, readUntil]
+    by_cases hlen : k0 ≤ (acc ++ c).length
+    · have hP : P (acc ++ c) = true := by
+        have := hlate (acc ++ c).length hlen (by simp [List.length_append])
+        have ht : (acc ++ (c :: cs).flatten).take (acc ++ c).length = acc ++ c := by
+          simp only [List.flatten_cons, ← List.append_assoc]
+          exact List.take_left' rfl
+        rwa [ht] at this
+      refine ⟨1, by omega, by simp, by simpa using hlen, ?_⟩
+      simp [hP]
+    · have hP : P (acc ++ c) = false := by
+        have := hearly 1 (by omega) (by simp) (by simpa using Nat.lt_of_not_le hlen)
+        simpa using this
+      have e : acc ++ (c :: cs).flatten = (acc ++ c) ++ cs.flatten := by simp
+      obtain ⟨i, hi1, hi2, hi3, hi4⟩ := ih (acc ++ c) (Nat.lt_of_not_le hlen) (by rw [← e]; exact hk')
+        (by
+          intro i hi1 hi2 hi3
+          have := hearly (i + 1) (by omega) (by simp; omega) (by simpa [List.append_assoc] using hi3)
+          simpa [List.append_assoc] using this)
+        (by
+          intro k hk1 hk2
+          rw [← e]
+          exact hlate k hk1 (by rw [e]; exact hk2))
+      refine ⟨i + 1, by omega, by simp; omega, by simpa [List.append_assoc] using hi3, ?_⟩
+      simp only [hP, Bool.false_eq_true, if_false, hi4]
+      simp [List.append_assoc]
+
+/-! ## the specification in words -/
+
+/-- the specification on a list of emissions -/
+def specL (cfg : Cfg) (u p pp : Nat) : List Kind → Outcome
+  | [] => .timeout
+  | k :: r => spec cfg u p pp k r
+
+theorem specL_cons (cfg : Cfg) (u p pp : Nat) (k : Kind) (r : List Kind) :
+    specL cfg u p pp (k :: r) = spec cfg u p pp k r := rfl
+
+theorem spec_user (cfg : Cfg) (u p pp : Nat) (rest : List Kind) :
+    spec cfg u p pp .user rest = if u + 1 > cfg.uMax then .auth else specL cfg (u + 1) p pp rest := by
+  cases rest <;> simp [spec, specL]
+
+theorem spec_pass (cfg : Cfg) (u p pp : Nat) (rest : List Kind) :
+    spec cfg u p pp .pass rest = if p + 1 > cfg.pMax then .auth else specL cfg u (p + 1) pp rest := by
+  cases rest <;> simp [spec, specL]
+
+theorem spec_phrase (cfg : Cfg) (u p pp : Nat) (rest : List Kind) :
+    spec cfg u p pp .phrase rest =
+      if pp + 1 > cfg.ppMax then .auth else specL cfg u p (pp + 1) rest := by
+  cases rest <;> simp [spec, specL]
+
+/-- credential prompts that stay within their bounds are skipped, counting them -/
+theorem specL_asks (cfg : Cfg) (asks l : List Kind) (u p pp : Nat)
+    (hall : ∀ a ∈ asks, a.isAsk = true)
+    (hu : u + asks.count .user ≤ cfg.uMax) (hp : p + asks.count .pass ≤ cfg.pMax)
+    (hpp : pp + asks.count .phrase ≤ cfg.ppMax) :
+    specL cfg u p pp (asks ++ l) =
+      specL cfg (u + asks.count .user) (p + asks.count .pass) (pp + asks.count .phrase) l := by
+  induction asks generalizing u p pp with
+  | nil => simp
+  | cons a asks ih =>
+    have ha := hall a (by simp)
+    have hall' : ∀ x ∈ asks, x.isAsk = true := fun x hx => hall x (by simp [hx])
+    cases a with
+    | quiet => simp [Kind.isAsk] at ha
+    | err => simp [Kind.isAsk] at ha
+    | prompt => simp [Kind.isAsk] at ha
+    | user =>
+      have c1 : (Kind.user :: asks).count .user = asks.count .user + 1 := by simp
+      have c2 : (Kind.user :: asks).count .pass = asks.count .pass := by simp
+      have c3 : (Kind.user :: asks).count .phrase = asks.count .phrase := by simp
+      simp only [c1, c2, c3] at hu hp hpp ⊢
+      simp only [List.cons_append, specL_cons, spec_user]
+      have : ¬ u + 1 > cfg.uMax := by omega
+      simp only [this, if_false]
+      rw [ih (u + 1) p pp hall' (by omega) (by omega) (by omega)]
+      simp [Nat.add_assoc, Nat.add_comm 1]
+    | pass =>
+      have c1 : (Kind.pass :: asks).count .pass = asks.count .pass + 1 := by simp
+      have c2 : (Kind.pass :: asks).count .user = asks.count .user := by simp
+      have c3 : (Kind.pass :: asks).count .phrase = asks.count .phrase := by simp
+      simp only [c1, c2, c3] at hu hp hpp ⊢
+      simp only [List.cons_append, specL_cons, spec_pass]
+      have : ¬ p + 1 > cfg.pMax := by omega
+      simp only [this, if_false]
+      rw [ih u (p + 1) pp hall' (by omega) (by omega) (by omega)]
+      simp [Nat.add_assoc, Nat.add_comm 1]
+    | phrase =>
+      have c1 : (Kind.phrase :: asks).count .phrase = asks.count .phrase + 1 := by simp
+      have c2 : (Kind.phrase :: asks).count .user = asks.count .user := by simp
+      have c3 : (Kind.phrase :: asks).count .pass = asks.count .pass := by simp
+      simp only [c1, c2, c3] at hu hp hpp ⊢
+      simp only [List.cons_append, specL_cons, spec_phrase]
+      have : ¬ pp + 1 > cfg.ppMax := by omega
+      simp only [this, if_false]
+      rw [ih u p (pp + 1) hall' (by omega) (by omega) (by omega)]
+      simp [Nat.add_assoc, Nat.add_comm 1]
+
+/-- success, in words: the dialogue is a run of credential prompts, each credential asked for at
+    most its maximum number of times, followed by a shell prompt -/
+theorem specL_ok_iff (cfg : Cfg) (l : List Kind) (u p pp : Nat)
+    (hu0 : u ≤ cfg.uMax) (hp0 : p ≤ cfg.pMax) (hpp0 : pp ≤ cfg.ppMax) :
+    specL cfg u p pp l = .ok ↔
+      ∃ asks tail, l = asks ++ .prompt :: tail ∧ (∀ a ∈ asks, a.isAsk = true) ∧
+        u + asks.count .user ≤ cfg.uMax ∧ p + asks.count .pass ≤ cfg.pMax ∧
+        pp + asks.count .phrase ≤ cfg.ppMax := by
+  constructor
+  · intro h
+    induction l generalizing u p pp with
+    | nil => simp [specL] at h
+    | cons k r ih =>
+      cases k with
+      | quiet => simp [specL, spec] at h
+      | err => simp [specL, spec] at h
+      | prompt => exact ⟨[], r, by simp, by simp, by simpa using hu0, by simpa using hp0, by simpa using hpp0⟩
+      | user =>
+        simp only [specL_cons, spec_user] at h
+        by_cases hx : u + 1 > cfg.uMax
+        · simp [hx] at h
+        · simp only [hx, if_false] at h
+          obtain ⟨asks, tail, e, ha, h1, h2, h3⟩ := ih (u + 1) p pp (by omega) hp0 hpp0 h
+          refine ⟨.user :: asks, tail, by simp [e], ?_, ?_, ?_, ?_⟩
+          · intro a ha'
+            simp only [List.mem_cons] at ha'
+            rcases ha' with rfl | ha'
+            · rfl
+            · exact ha a ha'
+          · simp only [List.count_cons, beq_self_eq_true, if_true]; omega
+          · simpa using h2
+          · simpa using h3
+      | pass =>
+        simp only [specL_cons, spec_pass] at h
+        by_cases hx : p + 1 > cfg.pMax
+        · simp [hx] at h
+        · simp only [hx, if_false] at h
+          obtain ⟨asks, tail, e, ha, h1, h2, h3⟩ := ih u (p + 1) pp hu0 (by omega) hpp0 h
+          refine ⟨.pass :: asks, tail, by simp [e], ?_, ?_, ?_, ?_⟩
+          · intro a ha'
+            simp only [List.mem_cons] at ha'
+            rcases ha' with rfl | ha'
+            · rfl
+            · exact ha a ha'
+          · simpa using h1
+          · simp only [List.count_cons, beq_self_eq_true, if_true]; omega
+          · simpa using h3
+      | phrase =>
+        simp only [specL_cons, spec_phrase] at h
+        by_cases hx : pp + 1 > cfg.ppMax
+        · simp [hx] at h
+        · simp only [hx, if_false] at h
+          obtain ⟨asks, tail, e, ha, h1, h2, h3⟩ := ih u p (pp + 1) hu0 hp0 (by omega) h
+          refine ⟨.phrase :: asks, tail, by simp [e], ?_, ?_, ?_, ?_⟩
+          · intro a ha'
+            simp only [List.mem_cons] at ha'
+            rcases ha' with rfl | ha'
+            · rfl
+            · exact ha a ha'
+          · simpa using h1
+          · simpa using h2
+          · simp only [List.count_cons, beq_self_eq_true, if_true]; omega
+  · rintro ⟨asks, tail, rfl, ha, h1, h2, h3⟩
+    rw [specL_asks cfg asks _ u p pp ha h1 h2 h3]
+    simp [specL, spec]
+
+/-! ## both flavours at once -/
+
+def scanOf (fl : Flavour) (P : Pats) (cfg : Cfg) : List Bytes → Act :=
+  match fl with
+  | .ssh => sshAct P
+  | .telnet => telAct P cfg.depth
+
+def stopOf (fl : Flavour) (P : Pats) (cfg : Cfg) : Bytes → Bool :=
+  match fl with
+  | .ssh => sshStop P
+  | .telnet => telStop P cfg.depth
+
+def clsOf (fl : Flavour) (P : Pats) : Bytes → Kind :=
+  match fl with
+  | .ssh => clsSSH P
+  | .telnet => clsTel P
+
+def fuelOf (cfg : Cfg) : Nat := cfg.uMax + cfg.pMax + cfg.ppMax + 1
+
+theorem login_eq_loop {σ : Type} (fl : Flavour) (P : Pats) (cfg : Cfg)
+    (react : σ → Bytes → σ × List Bytes) (d : σ) (q : List Bytes) :
+    login fl P cfg react d q = loop (scanOf fl P cfg) cfg react (fuelOf cfg) d ⟨0, 0, 0⟩ q [] := by
+  cases fl
+  · simp only [login, loginSSH, scanOf, fuelOf]
+    exact authSSH_eq_loop P cfg react _ d 0 0 0 q []
+  · simp only [login, loginTelnet, scanOf, fuelOf]
+    exact authTelnet_eq_loop P cfg react _ d 0 0 0 q []
+
+theorem scanOf_sound (fl : Flavour) (P : Pats) (cfg : Cfg) : ScanSound P (scanOf fl P cfg) := by
+  cases fl
+  · exact sshAct_sound P
+  · exact telAct_sound P cfg.depth
+
+theorem scanOf_reads (fl : Flavour) (P : Pats) (cfg : Cfg) :
+    ScanReads (stopOf fl P cfg) (clsOf fl P) (scanOf fl P cfg) := by
+  cases fl
+  · exact sshAct_reads P
+  · exact telAct_reads P cfg.depth
+
+/-- well-formedness of a scripted dialogue for a flavour -/
+def wfOf (fl : Flavour) (P : Pats) (cfg : Cfg) (first : Stage) (rest : List Stage) : Bool :=
+  wf (stopOf fl P cfg) (clsOf fl P) rest first.chunks first.kind
+
+theorem wfOf_ssh (P : Pats) (cfg : Cfg) (first : Stage) (rest : List Stage) :
+    wfOf .ssh P cfg first rest = wfSSH P first rest := rfl
+
+theorem wfOf_telnet (P : Pats) (cfg : Cfg) (first : Stage) (rest : List Stage) :
+    wfOf .telnet P cfg first rest = wfTel P cfg.depth first rest := rfl
+
+def countClose : List Ev → Nat
+  | [] => 0
+  | .close :: t => 1 + countClose t
+  | _ :: t => countClose t
+
+theorem countClose_login (t : List Ev) (h : t.all isLoginEv = true) : countClose t = 0 := by
+  induction t with
+  | nil => rfl
+  | cons e t ih =>
+    simp only [List.all_cons, Bool.and_eq_true] at h
+    cases e <;> simp_all [countClose, isLoginEv]
+
+theorem countClose_append (a b : List Ev) : countClose (a ++ b) = countClose a + countClose b := by
+  induction a with
+  | nil => simp [countClose]
+  | cons e t ih => cases e <;> simp [countClose, ih]; omega
+
+/-- meaning of `paired`: read off the pairing for any write in the trace -/
+theorem paired_sound_aux (P : Pats) (cfg : Cfg) (pre : List Ev) (p : Option Ev) (w : What)
+    (data : Bytes) (r : Bool) (post : List Ev)
+    (h : paired P cfg p (pre ++ .write w data r :: post) = true) (hw : w ≠ .ret) :
+    ∃ b, (pre.getLast?.or p) = some (.deliver b) ∧ patOf P w b = true ∧ data = credOf cfg w ∧
+      r = true := by
+  induction pre generalizing p with
+  | nil =>
+    simp only [List.nil_append, paired, Bool.and_eq_true] at h
+    cases w with
+    | ret => exact absurd rfl hw
+    | user =>
+      cases p with
+      | none => simp at h
+      | some e => cases e <;> simp_all
+    | pass =>
+      cases p with
+      | none => simp at h
+      | some e => cases e <;> simp_all
+    | phrase =>
+      cases p with
+      | none => simp at h
+      | some e => cases e <;> simp_all
+  | cons e pre ih =>
+    have h' : paired P cfg (some e) (pre ++ .write w data r :: post) = true := by
+      cases e with
+      | write w' d' r' =>
+        simp only [List.cons_append, paired, Bool.and_eq_true] at h
+        exact h.2
+      | deliver _ => simpa [paired] using h
+      | requeue _ => simpa [paired] using h
+      | close => simpa [paired] using h
+    obtain ⟨b, hb, rest⟩ := ih (some e) h'
+    refine ⟨b, ?_, rest⟩
+    rw [List.getLast?_cons]
+    cases hl : pre.getLast? <;> simp_all
 
 end Scrapli.Auth
